@@ -67,7 +67,7 @@ def _defs():
         _SRC["ser"] = pysym.load(Point._serialize_to_list)
         _SRC["des"] = pysym.load(Point._deserialize_from_list)
         _SRC["consts"] = {
-            k: getattr(Point, k)
+            k: getattr(Point, k, None)
             for k in ("_none_str", "_default_tag_key_prefix", "_default_field_key_prefix", "_compact_tag_key_prefix", "_compact_field_key_prefix")
         }
     return _SRC
